@@ -154,6 +154,32 @@ Proof.
   cbn. lia.
 Qed.
 
+(** * Patcher, skipped series *)
+
+Lemma until_eof_ok : forall f s, (length s < f)%nat -> step_ok (length s) (until_eof f s).
+Proof.
+  induction f as [|f IH]; intros s Hlt; [lia|].
+  cbn [until_eof]. destruct (read s) as [[fs s1]|] eqn:Hr; [|cbn; auto with c10].
+  pose proof (read_some _ _ _ Hr) as Hlen.
+  destruct (c_eof (dec_ctl fs)).
+  - cbn. lia.
+  - apply step_ok_mono with (n := length s1); [lia|]. apply IH. lia.
+Qed.
+
+Lemma skip_file_ok : forall f kind s, (length s < f)%nat -> step_ok (length s) (skip_file f kind s).
+Proof.
+  intros f kind s Hlt. unfold skip_file.
+  destruct (kind =? BSDIFF); [|apply until_hey_ok; assumption].
+  destruct (read s) as [[fs s1]|] eqn:Hr; [|cbn; auto with c10].
+  pose proof (read_some _ _ _ Hr) as Hlen.
+  assert (Hc : step_ok (length s1) (until_eof f s1)) by (apply until_eof_ok; lia).
+  destruct (until_eof f s1) as [s2|r]; [|exact Hc].
+  cbn in Hc.
+  destruct (read s2) as [[fs2 s3]|] eqn:Hr2; [|cbn; auto with c10].
+  pose proof (read_some _ _ _ Hr2) as Hlen2.
+  destruct (op_type (dec_op fs2) =? HEY); cbn; [lia|auto with c10].
+Qed.
+
 (** * Patcher, whole Resume *)
 
 Lemma resume_safe : forall f bs maxoff tgt wl srcs idx s,
@@ -167,7 +193,7 @@ Proof.
     destruct (negb ((sh_type (dec_sh fs) =? RSYNC) || (sh_type (dec_sh fs) =? BSDIFF))); [auto with c10|].
     match goal with |- safe (match ?r with _ => _ end) => assert (Hs : step_ok (length s1) r) end.
     { destruct (negb (whitelisted wl idx)).
-      - apply until_hey_ok. lia.
+      - apply skip_file_ok. lia.
       - destruct (sh_type (dec_sh fs) =? RSYNC).
         + apply process_rsync_ok; [assumption|lia].
         + apply process_bsdiff_ok. lia. }
@@ -429,7 +455,7 @@ Proof.
   destruct (negb (sh_file (dec_sh fs) =? idx)); [reflexivity|].
   destruct (negb ((sh_type (dec_sh fs) =? RSYNC) || (sh_type (dec_sh fs) =? BSDIFF))); [reflexivity|].
   destruct (negb (whitelisted wl idx)).
-  - destruct (until_hey f s1) as [s2|x]; [apply IH; assumption|reflexivity].
+  - destruct (skip_file f (sh_type (dec_sh fs)) s1) as [s2|x]; [apply IH; assumption|reflexivity].
   - destruct (sh_type (dec_sh fs) =? RSYNC).
     + pose proof (process_rsync_conservative f bs maxoff tgt outSize s1) as Hc.
       destruct (process_rsync f false bs maxoff tgt outSize s1) as [s2|[]];
@@ -608,6 +634,17 @@ Example patcher_accepts_valid :
   patcher (S (length s)) true 65536 (2^44) [70000; 10] [70005; 10; 127] None s = Ok
   /\ patcher (S (length s)) false 65536 (2^44) [70000; 10] [70005; 10; 127] None s = Ok
   /\ patcher (S (length s)) true 65536 (2^44) [70000; 10] [70005; 10; 127] None (firstn 9 s) = Err.
+Proof. vm_compute. repeat split; reflexivity. Qed.
+
+(** a series that is skipped (file not whitelisted) is read according to its kind: the header of
+    this bsdiff series, decoded as a SyncOp, would read as the end marker (targetIndex 2049) *)
+Example patcher_skips_bsdiff_series :
+  let s := [ G [(1, V 1)]; G [(1, V 2049)]; G [(1, L 100); (3, V 5)]; G [(4, V 1)]; G [(1, V 2049)];
+             G [(16, V 1)]; G [(1, V 1); (5, L 10)]; G [(1, V 2049)] ] in
+  patcher (S (length s)) true 65536 (2^44) [100] [100; 10] (Some [1]) s = Ok
+  /\ patcher (S (length s)) true 65536 (2^44) [100] [100; 10] (Some [1]) (firstn 3 s) = Err
+  /\ patcher (S (length s)) true 65536 (2^44) [100] [100; 10] (Some [1])
+       [ G [(1, V 1)]; G [(1, V 2049)]; G [(4, V 1)]; G [(1, V 1)] ] = Err.
 Proof. vm_compute. repeat split; reflexivity. Qed.
 
 Example signature_accepts_valid :
